@@ -262,6 +262,14 @@ def check(case) -> list[Fail]:
     if r is None:
         raise InvalidCase("program does not build")
     h = r.hugr
+    # metadata can also be given later, by assigning a new dictionary to the node's data (every third node
+    # with metadata gets an equal new dictionary, every seventh node a fresh one)
+    for n in list(h):
+        d = h[n]
+        if d.metadata and n.idx % 3 == 0:
+            d.metadata = dict(d.metadata)
+        elif not d.metadata and n.idx % 7 == 3:
+            d.metadata = {"assigned-later": n.idx % 2 == 0}
     before = store.snapshot(h)
     try:
         m = h.to_model()
